@@ -720,7 +720,7 @@ func main() {
 		}
 		ris.Cases = append(ris.Cases, replayRI(ins).toCase(map[string]bool{"scripted": true}))
 	}
-	nri := o.Scale(400, 8000)
+	nri := o.Scale(400, 4000)
 	for i := 0; i < nri && hangs < maxHangs; i++ {
 		c, b := genRI(rnd)
 		ris.Cases = append(ris.Cases, c.toCase(b))
